@@ -4,7 +4,7 @@ import numpy as np
 from .read import SgzReader
 from .version import SeismicZfpVersion
 from .utils import (pad, int_to_bytes, np_float_to_bytes, np_float_to_bytes_signed, coord_to_index,
-                    WrongDimensionalityError)
+                    WrongDimensionalityError, bytes_to_double, double_to_bytes)
 from .sgzconstants import DISK_BLOCK_BYTES, SEGY_TEXT_HEADER_BYTES
 
 
@@ -86,6 +86,9 @@ class SgzCropper(SgzReader):
         header[8:12] = int_to_bytes(len_xlines)
         header[12:16] = int_to_bytes(len_ilines)
         header[16:20] = np_float_to_bytes_signed(np.int32(self.zslices[zslices_index_range[0]]))
+        if bytes_to_double(header[92:100]) != 0:
+            # Sample axis kept as float64 (files converted from ZGY): this is the field the reader uses
+            header[84:92] = double_to_bytes(self.zslices[zslices_index_range[0]])
         header[20:24] = np_float_to_bytes_signed(np.int32(self.xlines[xline_index_range[0]]))
         header[24:28] = np_float_to_bytes_signed(np.int32(self.ilines[iline_index_range[0]]))
         header[56:60] = int_to_bytes(compressed_data_length_diskblocks)
